@@ -269,6 +269,7 @@ struct TypeCfg {
 
 struct Walk {
     std::string dump;                 // canonical, address-free
+    std::string shape;                // the same without key values: slot counts per node, separators only as "== largest key below" or not
     KVs items;                        // contents in depth-first order
     std::vector<const void*> leaves;  // depth-first order
     std::vector<int> leaf_start, leaf_use;
@@ -347,6 +348,7 @@ public:
         w.st_inner = t.stats_.inner_nodes;
         if (t.root_ == nullptr) {
             w.dump += "E";
+            w.shape += "E";
             if (t.head_leaf_ || t.tail_leaf_) w.err("root is null but head/tail leaf is not");
         } else {
             int mn = 0, mx = 0;
@@ -367,6 +369,7 @@ public:
             if (!chain_ok) {
                 w.err("leaf chain (head/next/prev/tail) differs from the leaves below the root in order");
                 // explicit chain dump so that different broken states stay different
+                size_t chain_from = w.dump.size();
                 w.dump += "|C";
                 auto idx = [&](const void* p) {
                     for (size_t j = 0; j < w.leaves.size(); ++j)
@@ -384,18 +387,21 @@ public:
                 c01::put_int(w.dump, idx(t.head_leaf_));
                 w.dump += 't';
                 c01::put_int(w.dump, idx(t.tail_leaf_));
+                w.shape += w.dump.substr(chain_from);
             }
             for (size_t j = 0; j + 1 < w.items.size(); ++j) {
                 if (x.less(w.items[j + 1].first, w.items[j].first)) w.err("keys out of order across the tree");
                 else if (x.unique && !x.less(w.items[j].first, w.items[j + 1].first)) w.err("duplicate key in a unique-key tree");
             }
         }
+        size_t stats_from = w.dump.size();
         w.dump += "|s";
         c01::put_int(w.dump, (int)w.st_size);
         w.dump += ',';
         c01::put_int(w.dump, (int)w.st_leaves);
         w.dump += ',';
         c01::put_int(w.dump, (int)w.st_inner);
+        w.shape += w.dump.substr(stats_from);
         if (w.st_size != w.items.size()) w.err(vh::fmt("stats.size=%zu but %zu elements are stored", w.st_size, w.items.size()));
         if (w.st_leaves != w.leaves.size()) w.err(vh::fmt("stats.leaves=%zu but the tree has %zu leaves", w.st_leaves, w.leaves.size()));
         if (w.st_inner != (size_t)w.n_inner) w.err(vh::fmt("stats.inner_nodes=%zu but the tree has %ld inner nodes", w.st_inner, w.n_inner));
@@ -421,6 +427,8 @@ public:
             w.leaf_start.push_back((int)w.items.size());
             w.leaf_use.push_back((int)use);
             w.dump += 'L';
+            w.shape += 'L';
+            c01::put_int(w.shape, (int)lf->slotuse);
             for (unsigned s = 0; s < use; ++s) {
                 c01::KV e = x.kv(lf->slotdata[s]);
                 w.items.push_back(e);
@@ -453,6 +461,9 @@ public:
         w.dump += 'I';
         c01::put_int(w.dump, n->level);
         w.dump += '(';
+        w.shape += 'I';
+        c01::put_int(w.shape, n->level);
+        w.shape += '(';
         for (unsigned s = 0; s <= use; ++s) {
             int cmn = 0, cmx = 0;
             if (in->childid[s] == nullptr) {
@@ -467,10 +478,16 @@ public:
                 w.dump += 'k';
                 c01::put_int(w.dump, sk);
                 w.dump += ' ';
-                if (x.less(sk, cmx) || x.less(cmx, sk)) w.err(vh::fmt("separator %d differs from the largest key %d below it", sk, cmx));
+                if (x.less(sk, cmx) || x.less(cmx, sk)) {
+                    w.err(vh::fmt("separator %d differs from the largest key %d below it", sk, cmx));
+                    w.shape += '!';
+                    c01::put_int(w.shape, sk);
+                }
+                w.shape += ' ';
             }
         }
         w.dump += ')';
+        w.shape += ')';
     }
 };
 }  // namespace tlx
